@@ -118,7 +118,8 @@ fn event(robot: &Robot, q: &Joints, eps: f64, r: &mut rand::rngs::StdRng, class:
     let tool_len = oracle::norm(&tool.t);
     let allowed = 20.0 * eps * (1.0 + reach(&p) + tool_len);
     let kin = Dyn(robot.kin.as_ref());
-    let Some(j) = guarded(|| in_pool(pool, || Jacobian::new(&kin, q, eps))) else { return json!({"ev": "jac", "outcome": "panic", "class": class}); };
+    // (pool 0: on the calling thread itself, as consecutive calls of an application would be)
+    let Some(j) = guarded(|| if pool == 0 { Jacobian::new(&kin, q, eps) } else { in_pool(pool, || Jacobian::new(&kin, q, eps)) }) else { return json!({"ev": "jac", "outcome": "panic", "class": class}); };
     let m = matrix_of(&j);
     let col_err: Vec<i64> = (0..6).map(|c| { let mut d: f64 = 0.0; for rr in 0..6 { d = d.max((m[rr][c] - geo[rr][c]).abs()); } milli(d, allowed) }).collect();
     // wrench -> torques: transpose; isometry and vector entry points agree
@@ -195,7 +196,7 @@ pub fn record(output: &str) {
         } else { None };
         let robot = Robot::new(p, solver::stack_for(sc, &mut r), limits);
         last_q = q;
-        out.put(event(&robot, &q, EPS[k % 3], &mut r, sc, 1 + (k * 7) % 16));
+        out.put(event(&robot, &q, EPS[k % 3], &mut r, sc, if k % 4 >= 2 { 0 } else { 1 + (k * 7) % 16 }));
     }
     out.finish();
 }
